@@ -532,6 +532,17 @@ fn rep_op(op: &str, line: &str, clean: bool) -> Option<(String, String)> {
     Some((op.replacen("recover ", "reptiled ", 1), format!("ok rt=1 n={}", n)))
 }
 
+/// the same question put to the *real* outcome: the file as the real recovery left it (`post`, a copy taken right
+/// after the store was dropped) against the index the real store reported on its `recover` line
+fn rep_post_op(post: &str, line: &str, clean: bool) -> Option<(String, String)> {
+    if !line.starts_with("ok ") || !line.contains(" amb=0 ") || line.contains(" fresh=1 ") { return None; }
+    if !(line.contains(" v=3 ") || clean) { return None; }
+    let v = line.split(" v=").nth(1)?.split(' ').next()?.to_string();
+    let lives = line.split(" live=[").nth(1)?.split(']').next()?;
+    let idx: Vec<String> = lives.split(',').filter(|t| !t.is_empty()).filter_map(|t| { let f: Vec<&str> = t.split(':').collect(); if f.len() >= 5 { Some(f[..5].join(":")) } else { None } }).collect();
+    Some((format!("repfile {} {} {}", post, v, if idx.is_empty() { "-".to_string() } else { idx.join(",") }), format!("ok rt=1 n={}", idx.len())))
+}
+
 fn new_device(path: &str, blocks: u64, version: u32) {
     let _ = std::fs::remove_file(path);
     let f = std::fs::File::create(path).unwrap();
@@ -1021,17 +1032,38 @@ fn reccut_image(s: &mut Sink, rng: &mut Rng, img: &[u8], amb: bool, later: u64, 
     let mut cuts = cuts;
     cuts.insert(0, 0); // nothing of the first recovery reached the device: only the later restart is of interest
     for &cut in &cuts {
-        for variant in 0..2 {
-            if cut == 0 && variant == 1 { continue; }
-            // 0: everything issued up to the cut is on the device; 1: fsynced writes + a random subset of the rest
+        for variant in 0..3 {
+            if cut == 0 && variant >= 1 { continue; }
+            // 0: everything issued up to the cut is on the device; 1: fsynced writes + a random subset of the rest;
+            // 2: as 0, but the write right before the cut is torn at 512-byte sectors (some of them still hold the
+            //    old bytes) - a torn journal slot fails its checksum and the *other* slot decides what recovery sees
+            if variant == 2 {
+                let last = &trace[cut - 1];
+                if !last.0 || last.2.len() <= 512 || (sparse && last.1 >= 16 && !rng.chance(1, 20)) { continue; }
+            }
             let mut img2 = img.to_vec();
             let mut pending: Vec<&(bool, u64, Vec<u8>)> = vec![];
             let apply = |img2: &mut Vec<u8>, e: &(bool, u64, Vec<u8>)| {
                 let off = e.1 as usize * BS;
                 if off + e.2.len() <= img2.len() { img2[off..off + e.2.len()].copy_from_slice(&e.2); }
             };
-            for e in &trace[..cut] {
-                if e.0 { if variant == 0 { apply(&mut img2, e); } else { pending.push(e); } }
+            for (ei, e) in trace[..cut].iter().enumerate() {
+                if e.0 {
+                    if variant == 2 && ei == cut - 1 {
+                        // torn: each 512-byte sector lands or not; at least one of each kind
+                        let off = e.1 as usize * BS;
+                        let nsec = e.2.len() / 512;
+                        let mut land: Vec<bool> = (0..nsec).map(|_| rng.chance(1, 2)).collect();
+                        let a = rng.below(nsec as u64) as usize;
+                        let b = (a + 1 + rng.below(nsec as u64 - 1) as usize) % nsec;
+                        land[a] = true; land[b] = false;
+                        for (si, l) in land.iter().enumerate() {
+                            let o = off + si * 512;
+                            if *l && o + 512 <= img2.len() { img2[o..o + 512].copy_from_slice(&e.2[si * 512..si * 512 + 512]); }
+                        }
+                        *s.hist.entry(if e.1 < 16 { "reccut-torn-journal-write".to_string() } else { "reccut-torn-data-write".to_string() }).or_insert(0) += 1;
+                    } else if variant != 1 { apply(&mut img2, e); } else { pending.push(e); }
+                }
                 else { for q in pending.drain(..) { apply(&mut img2, q); } }
             }
             if variant == 1 {
@@ -1057,7 +1089,7 @@ fn reccut_image(s: &mut Sink, rng: &mut Rng, img: &[u8], amb: bool, later: u64, 
                     }
                 };
                 oracle.push(format!("reccut{}: recovery (ttl on, now={}, amb={}) of {} interrupted after {} of its {} device events ({}) and restarted on {} exposes different contents — {} [first: {}{}]",
-                    if sparse { "-big" } else { "" }, later, amb as u8, keep0, cut, trace.len(), if variant == 0 { "all issued writes landed" } else { "un-synced writes partly lost" }, keep1, diff, show(&r0), if r0.len() > 6 { ",..." } else { "" }));
+                    if sparse { "-big" } else { "" }, later, amb as u8, keep0, cut, trace.len(), if variant == 0 { "all issued writes landed" } else if variant == 1 { "un-synced writes partly lost" } else { "the last write torn at 512-byte sectors" }, keep1, diff, show(&r0), if r0.len() > 6 { ",..." } else { "" }));
                 if sparse { let _ = std::fs::remove_file(&cp); let _ = std::fs::remove_file(&mp); return; }
             }
             let _ = std::fs::remove_file(&cp);
@@ -1110,6 +1142,10 @@ fn sec_reccut_big(s: &mut Sink, rng: &mut Rng, pairs: u64, oracle: &mut Vec<Stri
         let _ = store.insert_with_ttl(format!("gone-{:05}", i).as_bytes(), &rng.bytes(40), 1);
         let _ = store.flush();
     }
+    // the last transaction before the close is a write batch of a few *live* records: its intent stays in the
+    // older journal slot, under the clear record that ended it (a recovery that falls back to that slot - because
+    // the slot it is writing is torn - must not take the old intent for unfinished business)
+    for i in 0..3 { let _ = store.insert(format!("last-{:05}", i).as_bytes(), &rng.bytes(40)); }
     let _ = store.flush();
     drop(store);
     feoxdb::verif::clock::unpin();
@@ -1127,6 +1163,14 @@ fn sec_reccut_big(s: &mut Sink, rng: &mut Rng, pairs: u64, oracle: &mut Vec<Stri
     let free = (16..nblocks).rev().find(|b| all_zero(&img[b * BS..b * BS + BS]));
     let (Some(h), Some(f)) = (head, free) else { *s.hist.entry("reccut-big-skipped".into()).or_insert(0) += 1; return };
     if f < h { *s.hist.entry("reccut-big-skipped".into()).or_insert(0) += 1; return; }
+    // half of the devices get no stale generation: recovery's first journal transaction is then the large one
+    // that retires the expired winners (a torn image of *that* record is what makes the other slot decide)
+    if rng.chance(1, 2) {
+        *s.hist.entry("reccut-big-without-stale-generation".into()).or_insert(0) += 1;
+        let later = now + 10_000_000_000;
+        reccut_image(s, rng, &img, false, later, "rcbig", true, oracle);
+        return;
+    }
     let src = img[h * BS..h * BS + BS].to_vec();
     let o = f * BS;
     img[o..o + BS].copy_from_slice(&src);
@@ -1273,8 +1317,11 @@ fn sec_recover(s: &mut Sink, rng: &mut Rng, workloads: usize, mutations: usize) 
         let ttl_open = ttl && version != 1 && (dupgen || rng.chance(3, 4));
         let (op, line) = recover_line(s, &path, false, ttl_open, later);
         let rt = rep_op(&op, &line, true);
+        let post = format!("{}/dev{}_post.feox", s.dir, w);
+        let rp = if std::fs::copy(&path, &post).is_ok() { rep_post_op(&post, &line, true) } else { None };
         s.emit(&format!("recover-clean-v{}", version), op, line);
         if let Some((o, l)) = rt { s.emit("reptiled-clean", o, l); }
+        if let Some((o, l)) = rp { s.emit("repfile-after-recovery", o, l); }
         // 2. damaged variants (C17 + error branches of the model)
         for m in 0..mutations {
             let mut img = pristine.clone();
@@ -1306,8 +1353,11 @@ fn sec_recover(s: &mut Sink, rng: &mut Rng, workloads: usize, mutations: usize) 
             }
             let kind = if line.starts_with("ok") { format!("recover-mut-ok-{}", kinds[0]) } else { format!("recover-mut-{}-{}", line.replace(' ', "-"), kinds[0]) };
             let rt = rep_op(&op, &line, false);
+            let post = format!("{}/dev{}_m{}_post.feox", s.dir, w, m);
+            let rp = if std::fs::copy(&mp, &post).is_ok() { rep_post_op(&post, &line, false) } else { None };
             s.emit(&kind, op, line);
             if let Some((o, l)) = rt { s.emit("reptiled-mut", o, l); }
+            if let Some((o, l)) = rp { s.emit("repfile-after-recovery", o, l); } else { let _ = std::fs::remove_file(&post); }
             let _ = std::fs::remove_file(&mp);
         }
         // the clean recover above read `path` after the store possibly modified it on open; the
